@@ -10,6 +10,16 @@ CHECKS = {
    text='All small trees (<=4 files, <=3 dirs) x Manifest layouts (nesting, 5 compression formats, sibling Manifests, duplicates, IGNORE look-alikes, hidden names, symlinks, last_mtime) x all mutation sets of size <=1 (quick) / <=2 (thorough) are materialised and verified by the real code; every execution is compared with an independent three-valued reference verdict.',
    note='Trusted: gverif/refverify.py + refmanifest.py (reference), CPython os/hashlib/compression modules. Small-scope bounds as stated in evidence; tmpfs only.',
    ref='DESIGN.md §3 C01'),
+ 'C02': dict(level='model_checking',
+   technique='bounded-exhaustive exploration of tamper x recompute-level x compression x API on the real loader vs first-broken-link oracle',
+   text='All Manifest chains of depth <=3 (quick) / <=5 (thorough) x compression assignments x MANIFEST hash sets x sibling Manifest variant x every tampered object (changed/same-size/added/removed file, DIST line) at level j x every level k<=j up to which all Manifests are recomputed consistently; every one of the five consumer APIs is queried on a fresh loader and must raise ManifestMismatch naming the first broken link iff its answer depends on it, else answer as on the untampered tree.',
+   note='Trusted: reference writer (gverif/refmanifest.py, treemodel.py) that plays the attacker; untampered and fully recomputed trees pin the harness. Depth 4-5 use rotations, not all 5^d assignments.',
+   ref='DESIGN.md §3 C02'),
+ 'C07': dict(level='model_checking',
+   technique='bounded-exhaustive exploration of all discrepancy sets x handler policies x scandir orders on real keep-going verify vs reference offender multiset',
+   text='Every assignment of {ok, missing, altered, resized, replaced-by-directory} to <=4 (quick) / <=6 (thorough) listed files in several directories x stray-file sets x every verified sub-path x 5 handler policies x 2 directory enumeration orders; the multiset of paths passed to the handler (and logged by gemato verify -k) must equal the reference offender set, the result must be False iff a handler call returned False, and no file descriptor may be lost per offender.',
+   note='Trusted: gverif/refverify.py offender set; os.scandir order seam (monkeypatch). Offenders under IGNOREd paths or beneath a directory that replaced a listed file are DONT_CARE.',
+   ref='DESIGN.md §3 C07'),
 }
 NOT_YET = {}
 
